@@ -1,6 +1,7 @@
 package main
 
 import (
+	webdav "github.com/emersion/go-webdav"
 	"encoding/hex"
 	"fmt"
 	"net/http"
@@ -64,6 +65,20 @@ func emitEtag(o *Out, s string) {
 		return "ok " + hx(string(e))
 	})
 	o.Emit("etag.rt", sxRunes(s, true), rt)
+	// through headers: the announced form of a tag, sent back in If-Match / If-None-Match, names that tag again
+	hdr := guard(func() string {
+		announced := internal.ETag(s).String()
+		got, err := webdav.ConditionalMatch(announced).ETag()
+		if err != nil {
+			return "err"
+		}
+		m, err := webdav.ConditionalMatch(announced).MatchETag(s)
+		if err != nil {
+			return "ok " + hx(got) + " match-err"
+		}
+		return "ok " + hx(got) + " " + b01(m)
+	})
+	o.Emit("etag.hdr", sxRunes(s, true), hdr)
 }
 
 func emitEtagDec(o *Out, s string) {
@@ -188,7 +203,7 @@ func emitDateDec(o *Out, s string) {
 	}))
 }
 
-var tagAlphabet = []string{"a", "b", "\"", "\\", " ", "\n", "\t", "\r", "\x00", "\x07", "\x08", "\x0b", "\x0c", "\x1f", "\x7f", "é", "\u00a0", "\u2028", "世", "\U0001F600", "\U000E0001", "\xff", "\xc3", "\xed\xa0\x80", "\uFFFD", "'", "`", "%", "x"}
+var tagAlphabet = []string{",", ";", "=", "*", "W/", "a", "b", "\"", "\\", " ", "\n", "\t", "\r", "\x00", "\x07", "\x08", "\x0b", "\x0c", "\x1f", "\x7f", "é", "\u00a0", "\u2028", "世", "\U0001F600", "\U000E0001", "\xff", "\xc3", "\xed\xa0\x80", "\uFFFD", "'", "`", "%", "x"}
 
 func randFrom(r *RNG, alpha []string, maxLen int) string {
 	var b strings.Builder
